@@ -174,7 +174,10 @@ impl ToTokens for FromMetaImpl<'_> {
                                     ::darling::export::Err(::darling::Error::unsupported_format("literal").with_span(&__outer[0]))
                                 }
                             }
-                            _ => ::darling::export::Err(::darling::Error::too_many_items(1)),
+                            // The first surplus item is the one at fault; without a span of its own the
+                            // error has none at all when the enum is read through `from_list` directly
+                            // (a `flatten` field at the root of an attribute set).
+                            _ => ::darling::export::Err(::darling::Error::too_many_items(1).with_span(&__outer[1])),
                         }
                     }
 
